@@ -87,6 +87,8 @@ for _v, _t in (('default', 'None'), ('given', 'IdGen')):
                              'union_struct(N1, N2, result)',
                              # the property itself, over words: the language is the union of the operand languages
                              'all(implies(over(result.Sigma, w), nfa_accepts(result, w) == ((over(N1.Sigma, w) and nfa_accepts(N1, w)) or (over(N2.Sigma, w) and nfa_accepts(N2, w)))) for w in allwords())'],
+             pre_return_asserts=['all(implies(y in lookup(delta, (q, b)), y in Q) for q in atoms() for b in atoms() for y in atoms())',
+                                 'all(implies((q, b) in delta and y in delta[(q, b)], y in lookup(delta, (q, b))) for q in atoms() for b in atoms() for y in atoms())'],
              asserts=['nfa_wf(result)', 'union_struct(N1, N2, result)'],
              types={'delta': DT}, theories=['word', 'nfa', 'nfax'], props=['C18', 'C19', 'C06'], modifies=['id_generator'],
              note='exact transition relation of the textbook construction (epsilon moves of the second operand relabelled); the language statement follows by lemma union-sim (runs from a set of states, embedding of each operand, word induction)')
